@@ -5,11 +5,11 @@ ID = "C05"
 GEN = "c05"
 HARNESS_TEST = "TestC05"
 COQ_MODEL = ["C05/Check.v", "Gen/C05Facts.v"]
-COQ_PROOF_DEPS = ["C05/Proofs.v", "C05/ProofsBundle.v", "C05/ProofsNonvacuous.v"]
+COQ_PROOF_DEPS = ["C05/Proofs.v", "C05/ProofsBundle.v", "C05/ProofsX.v", "C05/ProofsNonvacuous.v", "C05/ProofsXNonvacuous.v"]
 COQ_OBLIG = ["C05/Property.v", "Gen/C05Oblig.v"]
-CASES_HEADER = "Require Import Nib.C05.Model Nib.C05.Spec Nib.C05.Facts Nib.C05.Check Nib.Gen.C05Facts."
+CASES_HEADER = "Require Import Nib.C05.Model Nib.C05.ModelX Nib.C05.Spec Nib.C05.Facts Nib.C05.Check Nib.Gen.C05Facts."
 CASE_TYPE = "case"
-MISMATCH_FN = "mismatch (k_sync_only_evm_addresses current_facts)"
+MISMATCH_FN = "mismatch (k_sync_only_evm_addresses current_facts) (k_journal_before_flush current_facts)"
 VIOLATES_FN = "violates"
 RULE = ("case = 1-3 Ethereum txs of a fresh signer (fund 4e5..3e15 unibi), each in its own block through "
         "BeginBlock/DeliverTx/EndBlock/Commit: legacy / access-list / dynamic-fee; gas price / tip / cap incl. 0, below base fee, "
@@ -17,15 +17,21 @@ RULE = ("case = 1-3 Ethereum txs of a fresh signer (fund 4e5..3e15 unibi), each 
         "sub-unibi, whole, with remainder, ~whole balance; target EOA, contract X (keep, revert, loop, forward w wei, "
         "selfdestruct to B / to self, forward+revert, FunToken precompile bankMsgSend, the same + revert), contract Y "
         "(frame that reverts after a precompile call), driver contract D calling X 2-5 times in one tx (self-destructs to B/R/D/self "
-        "interleaved with payments into X and transfers out), contract creation (ok / reverting init). Measured around DeliverTx: "
-        "bank supply(unibi), balances of 16 scenario accounts, GasUsed, VmError. non-trivial = passed the ante handler AND "
+        "interleaved with payments into X and transfers out), contract creation (ok / reverting init), script contract Z (~15% of the txs: "
+        "a generated script of value transfers to B / R / signer / the bank-BLOCKED module accounts x/distribution and fee collector, "
+        "FunToken whoAmI / bankMsgSend calls and self-calls with a sub-script that STOPs or REVERTs, nesting <= 3, top level STOP or "
+        "REVERT; half of them contain a credit to a blocked account followed by a precompile call in the same live frame = the "
+        "pre-precompile flush fails half-way, in a reverted frame / a reverted tx / kept frames). Measured around DeliverTx: "
+        "bank supply(unibi), balances of 19 scenario accounts (incl. the EVM module account), GasUsed, VmError, BlockedAddr of each account. non-trivial = passed the ante handler AND "
         "(effective price not a multiple of 10^12 or value with sub-unibi remainder or target has code or failed after ante); "
         "distinct = distinct input")
 ASSUMPTIONS = [
     "MsgEthereumTxResponse.GasUsed (EventEthereumTx.gas_used) and core.IntrinsicGas are oracle values: EVM gas metering is not modelled",
     "which state changes a contract call performs when it succeeds (script of wei transfers / self-destructs) is scenario knowledge "
-    "of the driver's hand-assembled contracts, not derived from the EVM",
-    "no account outside the 9 measured ones changes its unibi balance in a measured tx (checked: supply delta = sum of measured deltas)",
+    "of the driver's hand-assembled contracts, not derived from the EVM; for the script contract Z only WHAT the code does (transfers, "
+    "frames and how they end, precompile calls) is given - which calls fail, what a reverted frame leaves and the net effects are computed "
+    "by the model (ModelX.v)",
+    "no account outside the 19 measured ones changes its unibi balance in a measured tx (checked: supply delta = sum of measured deltas)",
 ]
 TRUSTED = ["go-ethereum core.IntrinsicGas, tx signing; bank keeper GetSupply/GetBalance as the measuring instrument"]
 HARNESS_TIMEOUT = {"quick": 600, "thorough": 7200}
@@ -118,6 +124,43 @@ def _script(tx, d, o, xwei_now=None):
     return None
 
 
+_ZID = {"B": 4, "R": 2, "S": 0, "X": 3, "DIST": 18, "FC": 1}
+_Z = 17
+
+
+def _xscript(steps):
+    """what contract Z does, step by step (ModelX.xop): which calls fail and what a reverted frame leaves is computed in Coq"""
+    out = []
+    for st in steps or []:
+        if st["op"] == "t":
+            out.append("XOp (OTransfer %d %d %s)" % (_Z, _ZID.get(st.get("to") or "B", 4), _z(st.get("w") or 0)))
+        elif st["op"] == "p":
+            if st.get("q"):
+                out.append("XPre None")
+            else:
+                out.append("XPre (Some (%d%%nat, %d%%nat, %s))" % (_Z, _ZID.get(st.get("to") or "B", 4), _z(st.get("w") or 0)))
+        else:
+            out.append("XFrame %s %s" % (_xscript(st.get("body")), "false" if st.get("rev") else "true"))
+    return "[" + "; ".join(out) + "]"
+
+
+def _zfeatures(steps, reverted, acc, pending=False):
+    """class markers of a Z script (histogram only): a credit to a blocked module account that is still pending when a
+    precompile is called in the same live frame -> the pre-precompile flush fails half-way"""
+    for st in steps or []:
+        if st["op"] == "t" and st.get("to") in ("DIST", "FC") and int(st.get("w") or 0) >= K:
+            pending = True
+        elif st["op"] == "p":
+            acc.add("z:precompile-call" + ("/in-reverted-frame" if reverted else ""))
+            if pending:
+                acc.add("z:FAILING-FLUSH(blocked-credit-pending)/" + ("frame-reverts" if reverted else "frame-kept(final-commit-fails)"))
+        elif st["op"] == "f":
+            inner = _zfeatures(st.get("body"), reverted or bool(st.get("rev")), acc, pending)
+            if not st.get("rev"):
+                pending = inner
+    return pending
+
+
 def _outcome(o):
     if not o["ante"]:
         return "Rejected"
@@ -170,9 +213,14 @@ def _otx(tx, d, o):
     etx = _etx(tx, d, sc, o["gasused"])
     # a bank send to the 32-byte address W is mirrored by SyncStateDBWithAccount into the account of its last 20 bytes
     trunc = "[(14%nat, 15%nat)]" if (tx["target"] == "w" and sc) else "[]"
-    return ("{| o_base_fee := %s; o_block_gas := %s; o_tx := %s; o_out := %s; o_trunc := %s;\n      o_before := [%s]; o_after := [%s]; "
+    ox = "None"
+    if tx["target"] == "z":
+        # the top-level frame is kept unless the script ends in REVERT or the gas does not reach the first opcode
+        ox = "(Some (%s, %s))" % (_xscript(tx.get("zsteps")), "true" if d["expect"] == "ok" else "false")
+    blocked = "[%s]" % "; ".join("%d%%nat" % i for i in (d.get("blocked") or []))
+    return ("{| o_base_fee := %s; o_block_gas := %s; o_tx := %s; o_out := %s; o_trunc := %s; o_x := %s; o_blocked := %s;\n      o_before := [%s]; o_after := [%s]; "
             "o_supply_before := %s; o_supply_after := %s |}"
-            % (_z(d["basefee"]), _z(d["blockgas"]), etx, _outcome(o), trunc,
+            % (_z(d["basefee"]), _z(d["blockgas"]), etx, _outcome(o), trunc, ox, blocked,
                "; ".join(_z(x) for x in o["before"]), "; ".join(_z(x) for x in o["after"]),
                _z(o["supply_before"]), _z(o["supply_after"])))
 
@@ -234,6 +282,11 @@ def classify(rec):
         if tx["target"] == "f":
             ks.append("f:%s/init=%s/prefund=%s/endow=%s" % ("create2" if tx.get("fc2") else "create", tx.get("finit"),
                                                              "0" if int(tx.get("fv") or 0) == 0 else "yes", "0" if int(tx.get("fe") or 0) == 0 else "yes"))
+        if tx["target"] == "z":
+            zf = set()
+            _zfeatures(tx.get("zsteps"), bool(tx.get("zrev")), zf)
+            ks.extend(sorted(zf) or ["z:no-precompile-call"])
+            ks.append("z:top-level-" + ("reverts" if tx.get("zrev") else "kept"))
         if tx["target"] == "d":
             kills = sum(1 for st in tx.get("steps") or [] if st["mode"] in (4, 5))
             ks.append("d:selfdestructs_in_one_tx=%d" % kills)
@@ -298,15 +351,21 @@ MANIFEST = {
                  "mint/burn as in SetAccBalance), C05_closed_system, C05_supply_exact_when_whole_unibi, C05_payer_equals_collector, "
                  "C05_failed_tx_changes_only_fee_and_nonce, C05_bundle_satisfies_PB (ONE Cosmos tx with any number of MsgEthereumTx of any "
                  "signers: every signer pays for ITS OWN messages within 1 unibi per message, collector gain = sum of the signers' "
-                 "payments), all obtained from C05_deliver_satisfies_P over a ledger model of ante + "
+                 "payments), C05_x_deliver_satisfies_P / C05_x_supply_never_increases / C05_x_failed_tx_changes_only_fee / "
+                 "C05_x_reverted_frame_invisible (the EVM phase on its two ledgers - StateDB wei balances and the cache-context bank - for ALL "
+                 "scripts of transfers, kept or reverted call frames and Nibiru precompile calls, with SetAccBalance as mint-to-module + "
+                 "send and the intermediate flush failing half-way at bank-blocked module accounts), C05_flush_before_journal_refuted "
+                 "(the order flush-then-journal in OnRunStart mints), all obtained from C05_deliver_satisfies_P over a ledger model of ante + "
                  "msg server + commit + refund. Constants and the provenance of prepayment/refund are re-extracted from /repo on "
-                 "every run (Gen/C05Facts.v); the model is compared with real DeliverTx measurements (supply, 9 balances, GasUsed) "
+                 "every run (Gen/C05Facts.v, incl. the order journal-entry-before-flush in precompile.OnRunStart); the model is compared with real "
+                 "DeliverTx measurements (supply, 19 balances, GasUsed) "
                  "and the proved-sound checker Pb is evaluated on those measurements."),
         "design_ref": "DESIGN.md §5 C05",
     },
     "level_note": ("The EVM interpreter is not modelled: gasUsed, intrinsic gas and the script of effects of a successful run "
                    "(known for the driver's hand-assembled contracts) are parameters; theorem hypotheses: 0 <= gasUsed <= gasLimit, "
-                   "the run does not touch the fee collector, balances >= 0. How GasUsed itself is computed (EIP-3529 cap) is outside this property (C03); the cap is extracted as an "
+                   "the run does not touch the fee collector, balances >= 0; in the two-ledger model the per-tx limit of precompile calls, nested "
+                   "precompile calls and dirty counts are not modelled (C04). How GasUsed itself is computed (EIP-3529 cap) is outside this property (C03); the cap is extracted as an "
                    "informational fact only. Interpretation: a tx failing after ante without a response pays the whole prepayment (stated in P). "
                    "Trusted: Coq kernel + vm_compute, the extractor, the driver (bank keeper reads, event parsing), the plugin."),
     "technique": "Coq proof (integer arithmetic + ledger sum invariants) + generated facts + differential correspondence on ABCI measurements",
